@@ -18,4 +18,7 @@ T3 = "'''"
 EXEC += ["x = r" + T3 + "a" + B + "\nb" + T3 + "\n", 'x = r"""a' + B + '\nb"""\n', "x = r'a" + B + "\nb'\n", "x = " + T3 + "a" + B + "\nb" + T3 + "\n", "x = 'a" + B + "\nb'\n",
          "x = rb" + T3 + "a" + B + "\nb" + T3 + "\n", "x = r'a" + B + B + "'\n", "x = r'a" + B + "'b'\n", "x = r'" + B + "'\n", "x = R'" + B + "n' r'" + B + "t'\n"]
 EVAL = ["x" + B, "1 + " + B, "(1,\n " + B, "1 + " + B + "\n2", "x if y", "lambda", "lambda:", "[a for a in]", "(", ")", "", "x y", "x,, y", "f(a b)", "*x", "**x", "x = 1", "x if y else", "not", "x[", "x[1:2:3:4]", "x.", ".x", "x..y", "1 2", "'a' 1", "f(**a, *b)", "f(a=1, 2)", "{1: 2, 3}", "{1, 2: 3}", "[1, 2)", "f(x for x in y, 1)", "f(1, x for x in y)", "f(x for x in y)", "f((x for x in y), 1)", "f(a, (x for x in y))", "f(x for x in y if x for z in x)", "b'\u00e9'", "b'a' 'b'", "b'\\xe9'"]
-INCOMPLETE = [("exec", t) for t in EXEC] + [("eval", t) for t in EVAL]
+# "single" mode: exactly one statement (a compound statement needs its terminating blank line); anything after it is an error
+SINGLE = ["a = 5\nb = 6\n", "a = 5\n", "a = 5\n\n# c\n   \n", "if a:\n    b = 1\n\n", "if a:\n    b = 1\nc = 2\n", "a = 5; b = 6\n", "x = [1,\n2]\nx\n", "def f():\n    return 1\n\nf()\n",
+          "a\n  b\n", "pass\n\n\npass\n", "1 + 2\n", "x\n", "for i in y: pass\n", "class C: pass\n\n", "x = 1\n  \n\t\n# only a comment\n", "x = 1 # c\ny\n", "if a: b\nelse: c\n\n", "if a: b\n\nelse: c\n", "try:\n    a\nfinally:\n    b\n\nc\n"]
+INCOMPLETE = [("exec", t) for t in EXEC] + [("eval", t) for t in EVAL] + [("single", t) for t in SINGLE]
